@@ -317,7 +317,11 @@ func allDenoms(cs ...sdk.Coins) []string {
 func c14History(c *vc.Ctx, idx int) {
 	r := world.NewRand(c.Seed, "c14cfg", idx)
 	nv := 3 + r.Intn(3)
-	cfg := lockCfg{Label: "c14", NVals: nv, MaxVals: int64(nv + 2), Blocks: c.Pick(80, 200), Protect0: true, JumpTime: idx%3 == 0, TargetPunished: true, EvidenceAges: true, TimeEdges: true,
+	maxVals := int64(nv + 2)
+	if idx%3 == 2 {
+		maxVals = 2 // fewer seats than candidates: members are demoted while CometBFT still lists them in the last commit
+	}
+	cfg := lockCfg{Label: "c14", NVals: nv, MaxVals: maxVals, Blocks: c.Pick(80, 200), Protect0: true, JumpTime: idx%3 == 0, TargetPunished: true, EvidenceAges: true, TimeEdges: true,
 		W: lockWeights{Create: 6, Lock: 55, Unlock: 20, Claim: 2, Weight: 4, Threshold: 5, Absent: 45, Evidence: 9, DustLock: 10},
 		Params: func(p *lockingtypes.Params) {
 			p.SignedBlocksWindow = int64(6 + r.Intn(5))
